@@ -646,3 +646,94 @@ def c20_6(ctx: Ctx) -> RuleResult:
         res.add(f, c, "parent and child look up the wrapped method as the part after 'external/'", ok, "" if ok else f"lookup argument `{show(arg, 60) if arg else '?'}`", construct=f"{f.name}: wrapped method lookup")
     res.floor = 3
     return res
+
+
+# --------------------------------------------------------------------- C20.7
+_EXIT_CALLS = {"sys.exit", "os._exit", "exit", "quit"}
+
+
+def _handler_masks_signal(handler: ast.AST, module_tree: ast.AST) -> str | None:
+    """A signal handler that turns death-by-signal into a zero exit status (or ignores the signal): returns the
+    reason, or None.  `handler` is the second argument of signal.signal."""
+    if isinstance(handler, ast.Attribute) and handler.attr == "SIG_IGN":
+        return "the signal is ignored"
+    body = None
+    if isinstance(handler, ast.Lambda):
+        body = [handler.body]
+    elif isinstance(handler, ast.Name):
+        for n in ast.walk(module_tree):
+            if isinstance(n, (ast.FunctionDef, ast.AsyncFunctionDef)) and n.name == handler.id:
+                body = n.body
+    if body is None:
+        return None
+    for s in body:
+        for x in ast.walk(s):
+            if isinstance(x, ast.Call) and (dotted(x.func) or "") in _EXIT_CALLS:
+                a = x.args[0] if x.args else None
+                if a is None or (isinstance(a, ast.Constant) and a.value in (0, None)):
+                    return f"its handler leaves with `{ast.unparse(x)}` (exit status 0)"
+            if isinstance(x, ast.Raise) and isinstance(x.exc, ast.Call) and (dotted(x.exc.func) or "") == "SystemExit":
+                a = x.exc.args[0] if x.exc.args else None
+                if a is None or (isinstance(a, ast.Constant) and a.value in (0, None)):
+                    return f"its handler raises `{ast.unparse(x.exc)}` (exit status 0)"
+    return None
+
+
+def _signal_installs(tree: ast.AST):
+    for n in ast.walk(tree):
+        if isinstance(n, ast.Call) and (dotted(n.func) or "").endswith("signal.signal") and len(n.args) == 2:
+            yield n
+
+
+@rule(P)
+def c20_7(ctx: Ctx) -> RuleResult:
+    res = RuleResult("C20.7", "DOM", "abnormal death stays visible: the abort exception is catchable by the deferring handler, and no signal handler turns a fatal signal into exit status 0")
+    # (a) the exception ropt uses to end a run is an Exception, so that `except Exception` around the evaluator call
+    #     (the abort hand-shake of the parent) sees it; a BaseException would leave start() with the child running
+    exc = ctx.repo.classes.get("ropt.exceptions.OptimizationAborted")
+    if exc is None:
+        raise AnalysisError("ropt.exceptions.OptimizationAborted not found")
+    narrow = []
+    for f in ctx.repo.funcs_in(MOD):
+        for h in nodes_in(f, ast.ExceptHandler):
+            if h.name and any(isinstance(n_, ast.Assign) and isinstance(n_.value, ast.Name) and n_.value.id == h.name for s_ in h.body for n_ in ast.walk(s_)):
+                classes = cfg_of(ctx.repo, f)._handler_classes(h)
+                if classes is not None and "BaseException" not in classes:
+                    narrow.append((f, h, classes))
+    chain, cur, seen = [], exc, set()
+    while cur is not None and cur.qualname not in seen:
+        seen.add(cur.qualname)
+        nxt = None
+        for b in cur.node.bases:
+            d = dotted(b) or ""
+            chain.append(d)
+            q = ctx.repo.classes.get(d) or next((c_ for c_ in ctx.repo.classes.values() if c_.name == d), None)
+            if q is not None:
+                nxt = q
+        cur = nxt
+    is_exc = "Exception" in chain or any(c_.endswith("Error") or c_ in ("RuntimeError", "ValueError") for c_ in chain)
+    for f, h, classes in narrow:
+        res.add(f, h, "OptimizationAborted (raised by the callback on max_functions / user abort / too few realizations) is caught by the deferring handler", is_exc,
+                "" if is_exc else f"OptimizationAborted derives from {chain} and the deferring handler catches only {sorted(classes)}: an abort raised in the parent's callback "
+                "leaves start() at once; the child is neither told to abort nor terminated and keeps running after the step has returned",
+                construct="deferring handler: catches the abort exception")
+    if not narrow:
+        res.add(exc.methods.get("__init__") or next(iter(ctx.repo.funcs_in(MOD))), exc.node, "the deferring handler catches BaseException (nothing to decide)", True, construct="deferring handler: catches the abort exception",
+                where=exc.module.relpath, fname=exc.qualname)
+    # (b) expected count zero: signal handlers in the child's module that exit with status 0 or ignore the signal
+    mod = ctx.repo.modules.get(MOD)
+    if mod is None:
+        raise AnalysisError(f"{MOD} not found")
+    # positive example that has to match on every run (the rule's own sensitivity)
+    probe = ast.parse("import signal, sys\nsignal.signal(signal.SIGTERM, lambda *_: sys.exit(0))\n")
+    if not any(_handler_masks_signal(c_.args[1], probe) for c_ in _signal_installs(probe)):
+        raise AnalysisError("C20.7 self-test: the masking-handler pattern no longer matches its positive example")
+    bad = [(c_, _handler_masks_signal(c_.args[1], mod.tree)) for c_ in _signal_installs(mod.tree)]
+    bad = [(c_, why) for c_, why in bad if why]
+    anyf = next(iter(ctx.repo.funcs_in(MOD)))
+    ok = not bad
+    res.add(anyf, bad[0][0] if bad else mod.tree, "no signal handler of the optimizer process converts a fatal signal into a zero exit status", ok,
+            "" if ok else f"`{ast.unparse(bad[0][0])[:80]}`: {bad[0][1]}; the parent recognises abnormal death only by a non-zero exit status, so a killed optimizer process is reported as normal completion",
+            construct="child signal handlers", where=mod.relpath, fname=MOD)
+    res.floor = 2
+    return res
